@@ -21,8 +21,10 @@ tensor, and the transposed network gives its transpose (interchange law + associ
 executed Int model on None-free networks `contract` (default) and `contract(step=-1)` return the scalar of that grid
 tensor; cell / ladder-step of the array model agree with the algebra on every in-range entry; no-op truncation
 (per `truncate` call incl. chi >= bond; whole `contract` for falsy tol with chi None/0 and for all-false masks);
-not-scalar and non-contiguous inputs raise ValueError.  Stated but not proved there: brute-force `exactValue` = grid
-tensor (checked here on every run instead), model-level split / None padding / chi >= every occurring bond.
+not-scalar and non-contiguous inputs raise ValueError; and (second pass) the brute-force `exactValue` (literal sum over
+all bond-index assignments) equals the grid tensor, so `contract_lr_exact`, `contract_rl_exact`,
+`contract_transpose_exact`, `contract_split` hold with `exactValue` on the right-hand side, also for None-padded columns
+(PaddedRows) and for chi >= every bond occurring in the sweep.
 Explored, not proved (ctx.explored): float networks (widely ranging positive magnitudes) against the exact rational
 value, and the lossless-truncation path (tiny tol) recombined with its multipliers — LAPACK is outside the model.
 """
